@@ -1,5 +1,13 @@
 import OH.Props.C17
+import OH.Props.C17E
 #print axioms OH.Props.C17.C17_first_interval_comments_partial
 #print axioms OH.Props.C17.C17_interval_comments_partial
 #print axioms OH.Props.C17.C17_empty_outside
 #print axioms OH.Props.C17.C17_union_sorted
+#print axioms OH.Props.C17E.C17_parser_comments_sorted
+#print axioms OH.Props.C17E.C17_comments_sorted_and_from_applying_rule
+#print axioms OH.Props.C17E.C17_schedule_comments_sorted_and_from_applying_rule
+#print axioms OH.Props.C17E.C17_no_contribution_no_comments
+#print axioms OH.Props.C17E.C17_no_match_no_comments
+#print axioms OH.Props.C17E.C17_single_rule_exact
+#print axioms OH.Props.C17E.C17_isolated_period_carries_its_rule_comments
